@@ -14,6 +14,7 @@ import (
 	"context"
 	"fmt"
 	"os"
+	"runtime"
 	"strconv"
 	"strings"
 	"time"
@@ -36,6 +37,8 @@ type Exec struct {
 	root   *stores.Node
 	leaves []*faultSto
 	dead   bool // an op hung: goroutines of the tree may still be running
+	// Unsettled counts ops after which goroutines were still running when the wait gave up
+	Unsettled int
 }
 
 func (e *Exec) close() {
@@ -181,11 +184,32 @@ func (e *Exec) Do(w []string) string {
 	default:
 		return "bad-op"
 	}
+	base := runtime.NumGoroutine()
 	out := watchdog(opTimeout, func() string { return c01.ExecOn(e.sto, w) })
 	if out == "hang" {
 		e.dead = true
+		return out
 	}
+	e.settle(base)
 	return out
+}
+
+// settle waits until the goroutines the op started (parallel sub-store calls that the combinator did
+// not wait for, e.g. the other sources of a merged enumeration that failed early) have made their
+// calls and ended: in the model every call of an op happens within the op.
+func (e *Exec) settle(base int) {
+	deadline := time.Now().Add(2 * time.Second)
+	for i := 0; runtime.NumGoroutine() > base; i++ {
+		if time.Now().After(deadline) {
+			e.Unsettled++
+			return
+		}
+		if i < 50 {
+			runtime.Gosched()
+		} else {
+			time.Sleep(100 * time.Microsecond)
+		}
+	}
 }
 
 // Injected is the number of failures injected so far, PendingFaults those still scheduled.
